@@ -14,6 +14,17 @@ inductive Steps (P : Prog) : Cfg → Cfg → Prop
   | refl (c : Cfg) : Steps P c c
   | tail {c c' c'' : Cfg} : Steps P c c' → Trans P c' c'' → Steps P c c''
 
+/-- the configurations of a run that has not halted: closed under machine steps and deliveries (not under the
+halting step — `Reach` also contains the final configuration of a run that died, which has no code left either) -/
+inductive Live (P : Prog) (c0 : Cfg) : Cfg → Prop
+  | init : Live P c0 c0
+  | step {c c' : Cfg} : Live P c0 c → step P c = .ok c' → Live P c0 c'
+  | deliver {c c' : Cfg} : Live P c0 c → c.deliver = some c' → Live P c0 c'
+
+def isQuitcbEv : Ev → Bool
+  | .quitcb _ => true
+  | _ => false
+
 def isApprun : Instr → Bool
   | .apprun => true
   | _ => false
